@@ -1,10 +1,15 @@
 CONFIG = {
     "level": "proof",
-    "level_text": "Lean theorems (kernel-checked): the fee-split arithmetic of disburseFeesP/disburseFeesVQ never takes an error branch and conserves the fees, for all amounts/weights/validator and voter counts, under hypotheses shown necessary by witnesses and discharged by parameter validation and the commit structure. Regenerated tie: tools/gen fatalpaths extracts from /repo's current Go source every return site reachable from any application's BeginBlock/EndBlock at which an ordinary error can originate (same-package callees and the app's state package inlined; state-unavailable returns excluded); the kernel (decide +kernel) checks that this ledger equals, site for site, the hand-classified ledger in OasisProofs/Props/C10.lean (145 sites in 18 roots: U state record present by construction, A proved fee arithmetic, M ledger arithmetic under invariants, P documented precondition, H upgrade halt, N handled by caller, R unreachable by construction, F outside the Lean model).",
+    "level_text": "Lean theorems (kernel-checked): the fee-split arithmetic of disburseFeesP/disburseFeesVQ never takes an error branch and conserves the fees, for all amounts/weights/validator and voter counts, under hypotheses shown necessary by witnesses and discharged by parameter validation and the commit structure. Regenerated tie: tools/gen fatalpaths extracts from /repo's current Go source every return site reachable from any application's BeginBlock/EndBlock at which an ordinary error can originate (same-package callees and the app's state package inlined; state-unavailable returns excluded); the kernel (decide +kernel) checks that this ledger equals, site for site, the hand-classified ledger in OasisProofs/Props/C10.lean (145 sites in 18 roots: U state record present by construction, A proved fee arithmetic, M ledger arithmetic under invariants, P documented precondition, H upgrade halt, N handled by caller, R unreachable by construction, F outside the Lean model). The collection is PROVED COMPLETE (OasisProofs/Props/C10Sound.lean, rule induction over the concrete path semantics OasisModel/Handlers/FlowSem.lean in which every ordinary error carries the return site where it originated): every ordinary error a root can return originates at a site of `errSites` when the fuel covers the nesting depth (errSites_complete); composed with the kernel-checked ledger and depth bound in ledger_complete. The proof forced three repairs of the collection (explicit error after an unchecked state write; `if err != nil { cleanup(); return err }`; a loop body testing the previous iteration's error) - none changes the ledger on the current source.",
     "technique": "Lean 4 proof of totality of fee arithmetic + regenerated fatal-path ledger checked by kernel evaluation",
     "models": [],
-    "lean_sources": ["OasisModel/Handlers", "OasisProofs/Helpers/Fees.lean"],
-    "regen": [{"kind": "fatalpaths", "out": "FatalPaths.lean"}],
+    "lean_sources": ["OasisModel/Handlers", "OasisProofs/Helpers/Fees.lean", "OasisModel/Staking", "OasisModel/Governance", "OasisModel/Quantity.lean"],
+    "extra_theorem_files": [{"file": "OasisProofs/Props/C10Sound.lean", "namespace": "OasisProofs.C10Sound"}],
+    "regen": [{"kind": "fatalpaths", "out": "FatalPaths.lean"}, {"kind": "quantity", "out": "SharePoolGen.lean"}],
+    "extra_theorem_files": [
+        {"file": "OasisProofs/Props/C10Ledger.lean", "namespace": "OasisProofs.C10Ledger"},
+        {"file": "OasisProofs/Props/C10Tally.lean", "namespace": "OasisProofs.C10Tally"},
+    ],
     "generated_obligations": 18,
     "drivers": [
         {"name": "ledgerdrv", "needs_model": False,
@@ -13,7 +18,8 @@ CONFIG = {
     ],
     "trusted_base": [
         "Lean 4.33 kernel; `decide +kernel` for the regenerated ledger",
-        "tools/gen/handlerfacts.go (go/ast translation of BeginBlock/EndBlock call trees to Flow) and `errSites` (OasisModel/Handlers/Flow.lean); both executable and small, not verified",
+        "tools/gen/handlerfacts.go (go/ast translation of BeginBlock/EndBlock call trees to Flow): that the paths of the Go code are among the paths of the generated Flow term under the semantics OasisModel/Handlers/FlowSem.lean is trusted, not proved (callees outside the application package and its state package stay opaque `ext` calls)",
+        "OasisModel/Handlers/FlowSem.lean: the path semantics, incl. the definition of where an error ORIGINATES, is the specification of the Flow language; the collection `errSites` itself is NO LONGER trusted: it is proved complete against this semantics (Props/C10Sound.lean)",
         "the class assigned to each ledger site (hand-written; classes U, M, R, F are arguments from the source, not Lean theorems — only class A sites are discharged by theorems here)",
     ],
     "assumptions": [
@@ -21,6 +27,6 @@ CONFIG = {
         "a block whose predecessor persisted non-zero fees carries a non-empty last-commit vote list",
         "documented precondition of the property: a validator set can be elected / total voting stake non-zero",
     ],
-    "partial": "Only the fee arithmetic is proved total in Lean; reward, commission, slashing, debonding and tally arithmetic (class M, 35 sites) are tied by the ledger and argued from guards, to be discharged by the C05/C15 models. DeliverTx totality (malformed transactions fail only themselves) and beacon/keymanager/roothash internals (class F) are not in the Lean model; ledgerdrv -spec c10 drives the real staking app's BeginBlock/EndBlock/ExecuteTx on histories with extreme amounts, depleted pools, evidence against unknown validators and coinciding epoch events and reports any fatal error or panic; the other applications are covered by the ledger only.",
+    "partial": "Fee arithmetic (class A) is proved total in Props/C10.lean; reward, commission, slashing, debonding (Props/C10Ledger.lean: beginBlock_total, endBlock_total, runChain_total over the C05 ledger model, arithmetic tied to Go by the regenerated SharePoolGen bridge lemmas) and the governance tally (Props/C10Tally.lean) are proved total under explicit hypotheses, each with a necessity witness; 4 class-M sites stay argued-only (see the Cls.M comment). Known corner: TransferFromCommon(escrow) fails for an entity whose active pool was slashed to zero with shares outstanding and whose commission rate is 100% (transferFromCommon_corner_fails). DeliverTx totality (malformed transactions fail only themselves) and beacon/keymanager/roothash internals (class F) are not in the Lean model; ledgerdrv -spec c10 drives the real staking app's BeginBlock/EndBlock/ExecuteTx on histories with extreme amounts, depleted pools, evidence against unknown validators and coinciding epoch events and reports any fatal error or panic; the other applications are covered by the ledger only.",
     "explanation": "Totality + conservation theorems for fee disbursement; regenerated fatal-path ledger (18 roots, 145 sites).",
 }
